@@ -850,7 +850,6 @@ func r42CornerOfOrigin(c *core.Ctx) {
 	c.Floor(R, 9)
 }
 
-
 // r42AxisOrderFromTable: for every built-in tile matrix set the axis order is answered by IsLatLon itself (the
 // OGC CRS84 special case or the EPSG table), never by the fallback on the informative orderedAxes member.  The CRS
 // reference of each embedded document is read from the source tree, split with the repository's own URI patterns,
